@@ -59,6 +59,19 @@ def gen_truncate(mod):
     # a leading docstring would be turned into bytes by the rewriter: drop it first
     if body and isinstance(body[0], ast.Expr) and isinstance(body[0].value, ast.Constant) and isinstance(body[0].value.value, str):
         body = body[1:]
+    # the parameter `s` is text; the model is its encoding.  Fail closed unless every use of `s` is one of:
+    # six.ensure_binary(s), a truth test (`if s and ...`), `return s` -- e.g. len(s) or s[:n] would count characters.
+    parents = {}
+    for n in ast.walk(ast.Module(body=body, type_ignores=[])):
+        for ch in ast.iter_child_nodes(n):
+            parents[ch] = n
+    rebound = False
+    for n in ast.walk(ast.Module(body=body, type_ignores=[])):
+        if isinstance(n, ast.Name) and n.id == "s" and isinstance(n.ctx, ast.Load):
+            par = parents.get(n)
+            ok = (isinstance(par, ast.Call) and U(par.func) == "six.ensure_binary" and par.args == [n]) \
+                or isinstance(par, (ast.BoolOp, ast.Return)) or (isinstance(par, ast.If) and par.test is n)
+            need(ok, "truncate uses the text `s` directly (characters, not UTF-8 bytes) in: " + U(par))
     f.body = [_Bytesify().visit(st) for st in body]
     ast.fix_missing_locations(f)
     spec = dict(params=dict(s=P.L, limit=P.Z), ret=P.L,
